@@ -39,6 +39,7 @@ import RattrProofs.Lemmas.ResultsTree
 import RattrProofs.Lemmas.ResultsTreeSpec
 import RattrProofs.Lemmas.ResultsTreeCheck
 import RattrProofs.Props.C04
+import RattrProofs.Lemmas.Pipeline
 
 namespace Rattr.C03
 open Rattr Rattr.Results Rattr.Cex
@@ -662,5 +663,601 @@ example : TreeFragment Sshare ∧ C03_at Sshare [0, 1, 2, 3] ∧ C03_at Sshare [
       Sshare_hyps0.iface, Sshare_hyps0.accepted, w1, w2, w3⟩
   exact ⟨hF, C03_tree_full_holds Sshare hF _, C03_tree_full_holds Sshare hF _, by decide +kernel,
     by decide +kernel, by decide +kernel, by decide +kernel⟩
+
+end Rattr.C03
+
+/-! ## The whole single-file pipeline in ONE model (`RattrModel/Pipeline.lean`)
+
+`Pipeline.run env mn facts builtins module imports` = compile the root context → analyse the file
+(every function / named lambda / class initialiser / static method) → find the callee IR of every
+Call symbol → generate the results of every callable over ONE shared store → the printed document.
+The theorems below are END-TO-END: their subject is the document computed FROM THE MODULE; the
+stage-local theorems above are used through the adapter lemmas of `Lemmas/Pipeline.lean`.
+`fir` is always the FileIr of the file stage (`FileA.analyseFile`), `specOf … fir sigs` the closure
+spec's view of it (`sigs`: any assignment of defaults to the parameters — the model's `Params` do
+not carry them). -/
+
+namespace Rattr.C03
+open Rattr Rattr.Results Rattr.Pipeline Rattr.Spec
+
+section PipelineTheorems
+variable {env : FnA.Env} {mn : Str} {f : Facts} {b : List Str} {body : List Top} {imp : ImpFacts}
+  {doc : ResultsDoc} {ds : List Diag}
+
+theorem mem_entry_of {ir : IR} {res : IrSets} (k : Kind) (n : Str) :
+    (match k with
+      | .get => n ∈ (entry ir res).gets
+      | .set => n ∈ (entry ir res).sets
+      | .del => n ∈ (entry ir res).dels) ↔ ∃ x ∈ res.of k, x.full = n := by
+  cases k <;> simp [entry, mem_sortStrs, Pipeline.fulls, IrSets.of]
+
+/-- **`pipeline_composition`.** A successful run of the pipeline model is exactly: the FileIr of
+the file stage; the proved `Results.generate` on the adapter's program (`toProg`: keys = positions,
+cids = equality classes of Call symbols, `resolve` = `find_call_target_and_ir`) over the FileIr's
+own sets, every key a root, in FileIr order; the document holds `entry` of each key's result under
+the key's name (the last key of a name wins, as in a Python dict). -/
+theorem pipeline_composition (h : run env mn f b body imp = .ok (doc, ds)) :
+    ∃ fir d0 rs σ', FileA.analyseFile env mn f b body = .ok (fir, d0) ∧
+      generate (toProg id f imp fir) (List.range fir.length) (toStore fir) = .ok (rs, σ') ∧
+      doc = mkDoc fir rs ∧
+      ∀ k sym ir, fir[k]? = some (sym, ir) → LastOfName fir k sym.name →
+        ∃ res, (k, res) ∈ rs ∧ Dict.get? doc sym.name = some (entry ir res) :=
+  run_entry h
+
+/-- **`pipeline_entries`.** The functions of the results document are exactly the analysed
+callables of the file stage (names; order irrelevant): every key of the FileIr has an entry, and
+there is no other entry. -/
+theorem pipeline_entries (h : run env mn f b body imp = .ok (doc, ds)) :
+    ∃ fir d0, FileA.analyseFile env mn f b body = .ok (fir, d0) ∧
+      ∀ n, n ∈ Dict.keys doc ↔ ∃ p ∈ fir, p.1.name = n := by
+  obtain ⟨fir, d0, rs, σ', hfile, hg, hdoc, _⟩ := run_entry h
+  refine ⟨fir, d0, hfile, ?_⟩
+  intro n
+  have hfst := generate_fst _ _ _ _ _ hg
+  rw [hdoc, mkDoc_keys]
+  constructor
+  · rintro ⟨p, _, sym, ir, hp, hn⟩
+    exact ⟨(sym, ir), List.mem_of_getElem? hp, hn⟩
+  · rintro ⟨p, hp, hn⟩
+    obtain ⟨k, hk⟩ := List.getElem?_of_mem hp
+    obtain ⟨res, hm⟩ := mem_rs_of_lt hfst (lt_length_of_getElem? hk)
+    exact ⟨(k, res), hm, p.1, p.2, hk, hn⟩
+
+/-- **`pipeline_own_and_calls`** — for EVERY module, every call graph: the entry of a callable
+contains every name of its own IR, and its `calls` are exactly its own calls (`name()`), never a
+callee's. -/
+theorem pipeline_own_and_calls (h : run env mn f b body imp = .ok (doc, ds)) :
+    ∃ fir d0, FileA.analyseFile env mn f b body = .ok (fir, d0) ∧
+      ∀ k sym ir, fir[k]? = some (sym, ir) → LastOfName fir k sym.name →
+        ∃ e, Dict.get? doc sym.name = some e ∧
+          (∀ x ∈ ir.gets, x.full ∈ e.gets) ∧ (∀ x ∈ ir.sets, x.full ∈ e.sets) ∧
+          (∀ x ∈ ir.dels, x.full ∈ e.dels) ∧ e.calls = sortStrs (ir.calls.map nameOfCall) := by
+  obtain ⟨fir, d0, rs, σ', hfile, hg, _, hent⟩ := run_entry h
+  refine ⟨fir, d0, hfile, ?_⟩
+  intro k sym ir hk hlast
+  obtain ⟨res, hm, hget⟩ := hent k sym ir hk hlast
+  have hown := C03_own_included _ _ _ _ _ hg k res hm
+  have hst : toStore fir k = irSets ir := toStore_eq fir k (sym, ir) hk
+  refine ⟨entry ir res, hget, ?_, ?_, ?_, rfl⟩
+  · intro x hx
+    exact (mem_entry_of .get x.full).mpr ⟨x, (hown x).1 (by rw [hst]; exact hx), rfl⟩
+  · intro x hx
+    exact (mem_entry_of .set x.full).mpr ⟨x, (hown x).2.1 (by rw [hst]; exact hx), rfl⟩
+  · intro x hx
+    exact (mem_entry_of .del x.full).mpr ⟨x, (hown x).2.2 (by rw [hst]; exact hx), rfl⟩
+
+/-- **`pipeline_leaf_exact`** — source → document. A callable whose IR holds no call that
+`find_call_target_and_ir` resolves (no calls at all, or only calls to builtins, methods, undefined
+/ ignored / excluded / nested / imported targets) gets EXACTLY the names of its own IR — whatever
+the rest of the module is (it may be called from anywhere, at any depth, before or after: the
+shared store is never written at a leaf). -/
+theorem pipeline_leaf_exact (h : run env mn f b body imp = .ok (doc, ds)) :
+    ∃ fir d0, FileA.analyseFile env mn f b body = .ok (fir, d0) ∧
+      ∀ k sym ir, fir[k]? = some (sym, ir) → LastOfName fir k sym.name → NoResolvable f imp fir ir →
+        Dict.get? doc sym.name = some
+          { gets := sortStrs (Pipeline.fulls ir.gets), sets := sortStrs (Pipeline.fulls ir.sets),
+            dels := sortStrs (Pipeline.fulls ir.dels), calls := sortStrs (ir.calls.map nameOfCall) } := by
+  obtain ⟨fir, d0, rs, σ', hfile, hg, _, hent⟩ := run_entry h
+  refine ⟨fir, d0, hfile, ?_⟩
+  intro k sym ir hk hlast hleaf
+  obtain ⟨res, hm, hget⟩ := hent k sym ir hk hlast
+  have hL := isLeaf_toProg hk hleaf
+  obtain ⟨σ1, σ2, _, hfr, _, hrun⟩ := generate_at _ hg hm
+  rw [runRoot_leaf hL] at hrun
+  simp only [Out.ok.injEq, Prod.mk.injEq] at hrun
+  have hres : res = irSets ir := by
+    rw [← hrun.1, hfr k hL]
+    exact toStore_eq fir k (sym, ir) hk
+  rw [hget, hres]
+  rfl
+
+/-- what `pipeline_depth_one` asks of ONE resolvable call `c` of the caller to callee `g`. -/
+structure EdgeHyp (S : Spec.SProg) (c : CallRec) (g : Key) : Prop where
+  /-- own names of the callee have basename = root variable of the spelling -/
+  rootBased : ∀ k, ∀ n ∈ (S.own g).of k, RootBased n
+  /-- no `*`-spelled argument (compound arguments `a.b`, `a[0]` ARE allowed at this depth) -/
+  noStar : (∀ a ∈ c.args.args, a.head? ≠ some '*') ∧ (∀ kv ∈ c.args.kwargs, kv.2.head? ≠ some '*')
+  /-- the interface rattr holds for the callee is that of its signature -/
+  iface : (fnAt S.prog g).iface = (Spec.sigAt S g).iface
+  /-- Python accepts the call, and `**kwargs` (if any) receives something -/
+  accepted : ∃ b, Spec.pyBind (Spec.sigAt S g) c.args = .ok b ∧ ((Spec.sigAt S g).kwarg.isSome → b.kwargGot ≠ [])
+  sigDistinct : (Spec.sigAt S g).iface.all.Nodup
+  kwDistinct : (c.args.kwargs.map Prod.fst).Nodup
+  notE1 : ¬ C04.E1 (Spec.sigAt S g) c.args
+  notE2 : ¬ C04.E2 (Spec.sigAt S g) c.args
+
+theorem EdgeHyp.to0 {S : Spec.SProg} {c : CallRec} {g : Key} (h : EdgeHyp S c g) : Spec.EdgeHyp0 S c g :=
+  { rootBased := h.rootBased, noStar := h.noStar, iface := h.iface, accepted := h.accepted,
+    swaps := by
+      intro bd hb k
+      have hh := C04.C04_partial (si S.prog) (Spec.sigAt S g) c.args h.sigDistinct h.kwDistinct h.notE1 h.notE2
+      rw [hb] at hh
+      exact hh.2 k }
+
+/-- **`pipeline_depth_one`** — source → document, against the independent closure spec. For a
+caller `k` whose resolvable callees are all leaves and whose calls to them are accepted by Python,
+outside the C04 defect classes, without `*`-spelled arguments: the document entry of `k` is exactly
+the spec's one-level unfolding — its own names plus each callee's names with the callee's
+parameters substituted by the argument expressions (`Spec.derive S 1 k`). Every hypothesis is
+about `k` and its own calls; the rest of the module is arbitrary (deep chains, shared callees,
+recursion elsewhere), and so is the position of `k` among the roots. -/
+theorem pipeline_depth_one (h : run env mn f b body imp = .ok (doc, ds)) :
+    ∃ fir d0, FileA.analyseFile env mn f b body = .ok (fir, d0) ∧
+      ∀ (sigs : List (Spec.Sig Str)) k sym ir, fir[k]? = some (sym, ir) → LastOfName fir k sym.name →
+        LocalD1 (specOf f imp fir sigs).prog k →
+        (∀ c ∈ (fnAt (specOf f imp fir sigs).prog k).calls, ∀ g,
+            (specOf f imp fir sigs).prog.resolve c.cid = some g → EdgeHyp (specOf f imp fir sigs) c g) →
+        ∃ e, Dict.get? doc sym.name = some e ∧
+          e.calls = sortStrs (ir.calls.map nameOfCall) ∧
+          ∀ n, (n ∈ e.gets ↔ n ∈ (Spec.derive (specOf f imp fir sigs) 1 k).gets) ∧
+               (n ∈ e.sets ↔ n ∈ (Spec.derive (specOf f imp fir sigs) 1 k).sets) ∧
+               (n ∈ e.dels ↔ n ∈ (Spec.derive (specOf f imp fir sigs) 1 k).dels) := by
+  obtain ⟨fir, d0, rs, σ', hfile, hg, _, hent⟩ := run_entry h
+  refine ⟨fir, d0, hfile, ?_⟩
+  intro sigs k sym ir hk hlast hL hE
+  obtain ⟨res, hm, hget⟩ := hent k sym ir hk hlast
+  refine ⟨entry ir res, hget, rfl, ?_⟩
+  intro n
+  have key := fun kd => Spec.localD1_iff_derive (specOf f imp fir sigs) (toProg_cidArgs f imp fir)
+    (standIns_toProg f imp fir) _ rs σ' hg hm hL (fun c hc g hr => (hE c hc g hr).to0) kd n
+  exact ⟨(mem_entry_of .get n).trans (key .get), (mem_entry_of .set n).trans (key .set),
+    (mem_entry_of .del n).trans (key .del)⟩
+
+/-- **`pipeline_tree_sound_complete`** — source → document at ANY depth. If the module's resolvable
+call graph is in the tree fragment (`TreeFragment`: acyclic, no call symbol reached along two paths
+from one root, bare-name arguments, calls Python accepts, outside the C04 defect classes), the
+document entry of EVERY callable is exactly the closure: a spelling is listed iff it is derivable
+in the independent spec, for gets, sets and dels — although all callables are generated over one
+shared, mutated store. -/
+theorem pipeline_tree_sound_complete (h : run env mn f b body imp = .ok (doc, ds)) :
+    ∃ fir d0, FileA.analyseFile env mn f b body = .ok (fir, d0) ∧
+      ∀ (sigs : List (Spec.Sig Str)), TreeFragment (specOf f imp fir sigs) →
+        ∀ k sym ir, fir[k]? = some (sym, ir) → LastOfName fir k sym.name →
+          ∃ e, Dict.get? doc sym.name = some e ∧
+            e.calls = sortStrs (ir.calls.map nameOfCall) ∧
+            ∀ n, (n ∈ e.gets ↔ Spec.DerivableGet (specOf f imp fir sigs) k n) ∧
+                 (n ∈ e.sets ↔ Spec.DerivableSet (specOf f imp fir sigs) k n) ∧
+                 (n ∈ e.dels ↔ Spec.DerivableDel (specOf f imp fir sigs) k n) := by
+  obtain ⟨fir, d0, rs, σ', hfile, hg, _, hent⟩ := run_entry h
+  refine ⟨fir, d0, hfile, ?_⟩
+  intro sigs hF k sym ir hk hlast
+  obtain ⟨res, hm, hget⟩ := hent k sym ir hk hlast
+  refine ⟨entry ir res, hget, rfl, ?_⟩
+  intro n
+  obtain ⟨a1, a2, a3⟩ := C03_tree_any_order (specOf f imp fir sigs) hF _ rs σ' hg k res hm n
+  refine ⟨?_, ?_, ?_⟩
+  · rw [← a1]; simp [entry, mem_sortStrs, Pipeline.fulls, Cex.fulls]
+  · rw [← a2]; simp [entry, mem_sortStrs, Pipeline.fulls, Cex.fulls]
+  · rw [← a3]; simp [entry, mem_sortStrs, Pipeline.fulls, Cex.fulls]
+
+/-- **`pipeline_sound_all_graphs`** — soundness end-to-end for EVERY call graph (diamonds, shared
+callees, recursion): with bare-name arguments and accepted calls, every spelling the document lists
+for any callable is derivable. (Completeness is what fails outside the tree fragment:
+`C03_cex_dedupe`.) -/
+theorem pipeline_sound_all_graphs (h : run env mn f b body imp = .ok (doc, ds)) :
+    ∃ fir d0, FileA.analyseFile env mn f b body = .ok (fir, d0) ∧
+      ∀ (sigs : List (Spec.Sig Str)), CalleeRootBased (specOf f imp fir sigs) →
+        BareArgs (specOf f imp fir sigs).prog → IfaceOfSig (specOf f imp fir sigs) →
+        AcceptedCalls (specOf f imp fir sigs) → SigsDistinct (specOf f imp fir sigs) →
+        KwDistinct (specOf f imp fir sigs).prog → OutsideE1E2 (specOf f imp fir sigs) →
+        ∀ k sym ir, fir[k]? = some (sym, ir) → LastOfName fir k sym.name →
+          ∃ e, Dict.get? doc sym.name = some e ∧
+            (∀ n ∈ e.gets, Spec.DerivableGet (specOf f imp fir sigs) k n) ∧
+            (∀ n ∈ e.sets, Spec.DerivableSet (specOf f imp fir sigs) k n) ∧
+            (∀ n ∈ e.dels, Spec.DerivableDel (specOf f imp fir sigs) k n) := by
+  obtain ⟨fir, d0, rs, σ', hfile, hg, _, hent⟩ := run_entry h
+  refine ⟨fir, d0, hfile, ?_⟩
+  intro sigs hR hB hI hA hSig hKw hE k sym ir hk hlast
+  obtain ⟨res, hm, hget⟩ := hent k sym ir hk hlast
+  obtain ⟨a1, a2, a3⟩ := C03_bare_sound_all_graphs (specOf f imp fir sigs) (toProg_cidArgs f imp fir)
+    hR hB hI hA hSig hKw hE _ rs σ' hg k res hm
+  refine ⟨entry ir res, hget, ?_, ?_, ?_⟩
+  · intro n hn
+    obtain ⟨x, hx, e⟩ := (mem_entry_of .get n).mp hn
+    rw [← e]; exact a1 x hx
+  · intro n hn
+    obtain ⟨x, hx, e⟩ := (mem_entry_of .set n).mp hn
+    rw [← e]; exact a2 x hx
+  · intro n hn
+    obtain ⟨x, hx, e⟩ := (mem_entry_of .del n).mp hn
+    rw [← e]; exact a3 x hx
+
+
+/-- **`pipeline_results_outcomes`** — how stage S6 can end, for EVERY FileIr and every order of ties:
+with a document, with `ValueError` (`raise ValueError("never")` in `unbind_name`), or with the
+`ImportError` of a call to an import whose module is not found (`NoImportFact`: the per-case facts
+did not cover the import — an error of the harness, reported as such). Never with a fatal error,
+and never out of fuel: tree construction terminates on every call graph, recursion included. -/
+theorem pipeline_results_outcomes (ord : List CallSym → List CallSym) (f : Facts) (imp : ImpFacts)
+    (fir : Pipeline.FileIr) :
+    (∃ doc ds, results ord f imp fir = .ok (doc, ds)) ∨
+    results ord f imp fir = .crash "ValueError".toList ∨
+    results ord f imp fir = .crash "ImportError".toList ∨
+    results ord f imp fir = .crash "NoImportFact".toList := by
+  have key : results ord f imp fir =
+      match genLoop (toProg ord f imp fir) (diagCtx f imp fir (toProg ord f imp fir))
+          (List.range fir.length) (toStore fir) with
+      | .ok (rs, _, ds) => .ok (mkDoc fir rs, ds)
+      | .fatal ds d => .fatal ds d
+      | .crash e => .crash e := by
+    unfold results resultsStore
+    simp only
+    cases genLoop (toProg ord f imp fir) (diagCtx f imp fir (toProg ord f imp fir))
+        (List.range fir.length) (toStore fir) <;> rfl
+  rw [key]
+  cases hg : genLoop (toProg ord f imp fir) (diagCtx f imp fir (toProg ord f imp fir))
+      (List.range fir.length) (toStore fir) with
+  | ok q => obtain ⟨rs, σ, ds⟩ := q; exact Or.inl ⟨_, _, rfl⟩
+  | fatal a d => exact absurd hg (genLoop_not_fatal _ _ _ _ a d)
+  | crash e =>
+    right
+    rcases genLoop_crash _ _ _ _ e hg with h | ⟨c, hc⟩
+    · subst h; exact Or.inl rfl
+    · right
+      simp only [diagCtx] at hc
+      split at hc
+      · rename_i cs _
+        cases hr : resolveCall f imp fir cs with
+        | target k => simp [hr] at hc
+        | nothing => simp [hr] at hc
+        | crash e' =>
+          simp only [hr, Option.some.injEq] at hc
+          subst hc
+          rcases resolveCall_crash hr with h | h
+          · subst h; exact Or.inl rfl
+          · subst h; exact Or.inr rfl
+      · cases hc
+
+end PipelineTheorems
+
+/-! ### checkers for the local hypotheses, and a concrete module (non-vacuity) -/
+
+def localD1B (P : Prog) (k : Key) : Bool :=
+  (fnAt P k).calls.all fun c => match P.resolve c.cid with | none => true | some g => leafB P g
+
+theorem localD1_of_check {P : Prog} {k : Key} (h : localD1B P k = true) : LocalD1 P k := by
+  intro c hc g hr
+  have := List.all_eq_true.mp h c hc
+  simp only [hr] at this
+  exact (leafB_iff P g).mp this
+
+def edgeHypB (S : Spec.SProg) (k : Key) : Bool :=
+  (fnAt S.prog k).calls.all fun c =>
+    match S.prog.resolve c.cid with
+    | none => true
+    | some g =>
+      decide ((∀ n ∈ (S.own g).gets, RootBased n) ∧ (∀ n ∈ (S.own g).sets, RootBased n) ∧
+        (∀ n ∈ (S.own g).dels, RootBased n)) &&
+      decide ((∀ a ∈ c.args.args, a.head? ≠ some '*') ∧ (∀ kv ∈ c.args.kwargs, kv.2.head? ≠ some '*')) &&
+      decide ((fnAt S.prog g).iface = (Spec.sigAt S g).iface) &&
+      (match Spec.pyBind (Spec.sigAt S g) c.args with
+        | .ok bd => decide ((Spec.sigAt S g).kwarg.isSome → bd.kwargGot ≠ [])
+        | .error _ => false) &&
+      decide ((Spec.sigAt S g).iface.all.Nodup) && decide ((c.args.kwargs.map Prod.fst).Nodup) &&
+      decide (¬ C04.E1 (Spec.sigAt S g) c.args) && decide (¬ C04.E2 (Spec.sigAt S g) c.args)
+
+theorem edgeHyp_of_check {S : Spec.SProg} {k : Key} (h : edgeHypB S k = true) :
+    ∀ c ∈ (fnAt S.prog k).calls, ∀ g, S.prog.resolve c.cid = some g → EdgeHyp S c g := by
+  intro c hc g hr
+  have := List.all_eq_true.mp h c hc
+  simp only [hr, Bool.and_eq_true, decide_eq_true_eq] at this
+  obtain ⟨⟨⟨⟨⟨⟨⟨⟨a, b', d⟩, h2⟩, h3⟩, h4⟩, h5⟩, h6⟩, h7⟩, h8⟩ := this
+  refine ⟨?_, h2, h3, ?_, h5, h6, h7, h8⟩
+  · intro kd n hn
+    cases kd
+    · exact a n hn
+    · exact b' n hn
+    · exact d n hn
+  · cases hb : Spec.pyBind (Spec.sigAt S g) c.args with
+    | error e => simp [hb] at h4
+    | ok bd =>
+      simp only [hb, decide_eq_true_eq] at h4
+      exact ⟨bd, rfl, h4⟩
+
+def envP : FnA.Env := { ctxEnv := { prims := [], literals := [] }, analysers := [] }
+
+/-- the model's encoding (rendered by `py/tools/lean_module.py`) of
+
+```
+def leaf(l, m):
+    l.attr
+    m.other = 1
+    print(l.shown)
+def top(a, b):
+    leaf(a, m=b)
+    del b.gone
+class K:
+    def __init__(self, v):
+        self.f = v.in_init
+def use(o):
+    k = K(o)
+    return top(o, o)
+def chain(z):
+    use(z)
+``` -/
+def modP : List Top :=
+  [.funcDef "leaf".toList ⟨[], ["l".toList, "m".toList], none, [], none⟩
+      [(.other "Expr".toList [(.attr (.name "l".toList .load) "attr".toList .load)]), (.assign [(.attr (.name "m".toList .load) "other".toList .store)] .const), (.other "Expr".toList [(.call (.name "print".toList .load) [(.attr (.name "l".toList .load) "shown".toList .load)] [] [])])]
+      [] false,
+   .funcDef "top".toList ⟨[], ["a".toList, "b".toList], none, [], none⟩
+      [(.other "Expr".toList [(.call (.name "leaf".toList .load) [(.name "a".toList .load)] [(some "m".toList)] [(.name "b".toList .load)])]), (.delete [(.attr (.name "b".toList .load) "gone".toList .del)])]
+      [] false,
+   .classDef "K".toList []
+     [.funcDef "__init__".toList ⟨[], ["self".toList, "v".toList], none, [], none⟩
+      [(.assign [(.attr (.name "self".toList .load) "f".toList .store)] (.attr (.name "v".toList .load) "in_init".toList .load))]
+      [] false]
+     [],
+   .funcDef "use".toList ⟨[], ["o".toList], none, [], none⟩
+      [(.assign [(.name "k".toList .store)] (.call (.name "K".toList .load) [(.name "o".toList .load)] [] [])), (.ret [(.call (.name "top".toList .load) [(.name "o".toList .load), (.name "o".toList .load)] [] [])])]
+      [] false,
+   .funcDef "chain".toList ⟨[], ["z".toList], none, [], none⟩
+      [(.other "Expr".toList [(.call (.name "use".toList .load) [(.name "z".toList .load)] [] [])])]
+      [] false]
+
+def S' (x : String) : Str := x.toList
+
+/-- what `python -m rattr -o results -f 0` prints for that file (checked against the real CLI). -/
+def docP : ResultsDoc :=
+  [(S' "leaf", ⟨[S' "l.attr", S' "l.shown"], [S' "m.other"], [], [S' "print()"]⟩),
+   (S' "top", ⟨[S' "a", S' "a.attr", S' "a.shown", S' "b"], [S' "b.other"], [S' "b.gone"], [S' "leaf()"]⟩),
+   (S' "K", ⟨[S' "v.in_init"], [S' "self.f"], [], []⟩),
+   (S' "use", ⟨[S' "o", S' "o.attr", S' "o.in_init", S' "o.shown"], [S' "k", S' "k.f", S' "o.other"], [S' "o.gone"],
+     [S' "K()", S' "top()"]⟩),
+   (S' "chain", ⟨[S' "z", S' "z.attr", S' "z.in_init", S' "z.shown"], [S' "k", S' "k.f", S' "z.other"], [S' "z.gone"],
+     [S' "use()"]⟩)]
+
+def firP : Pipeline.FileIr :=
+  match FileA.analyseFile envP (S' "target") {} [S' "print"] modP with
+  | .ok (fir, _) => fir
+  | _ => []
+
+theorem firP_eq {fir : Pipeline.FileIr} {d0 : List Diag}
+    (h : FileA.analyseFile envP (S' "target") {} [S' "print"] modP = .ok (fir, d0)) : fir = firP := by
+  unfold firP; rw [h]
+
+-- the elaborator must not try to evaluate the analyser (the kernel does, in `decide +kernel`)
+attribute [irreducible] firP
+
+def sigP (ps : List String) : Spec.Sig Str := ⟨[], ps.map (fun x => ⟨S' x, false⟩), none, [], none⟩
+def sigsP : List (Spec.Sig Str) := [sigP ["l", "m"], sigP ["a", "b"], sigP ["self", "v"], sigP ["o"], sigP ["z"]]
+def specP : Spec.SProg := specOf {} [] firP sigsP
+
+/-- the outcome is `ok (doc, ds)`, as a Boolean (for kernel evaluation) -/
+def outcomeIs (o : FileA.Outcome (ResultsDoc × List Diag)) (doc : ResultsDoc) (ds : List Diag) : Bool :=
+  match o with
+  | .ok (d, s) => decide (d = doc) && decide (s = ds)
+  | _ => false
+
+theorem eq_of_outcomeIs {o : FileA.Outcome (ResultsDoc × List Diag)} {doc : ResultsDoc} {ds : List Diag}
+    (h : outcomeIs o doc ds = true) : o = .ok (doc, ds) := by
+  cases o with
+  | ok a =>
+    obtain ⟨d, s⟩ := a
+    simp only [outcomeIs, Bool.and_eq_true, decide_eq_true_eq] at h
+    rw [h.1, h.2]
+  | fatal a b => simp [outcomeIs] at h
+  | crash e => simp [outcomeIs] at h
+
+/-- TEST (kernel evaluation of the WHOLE pipeline model on the module above): the document is the
+one the real CLI prints, and no diagnostic is emitted. -/
+theorem pipeline_test_module :
+    run envP (S' "target") {} [S' "print"] modP = .ok (docP, []) :=
+  eq_of_outcomeIs (by decide +kernel)
+
+theorem firP_names : firP.map (fun p => p.1.name) = [S' "leaf", S' "top", S' "K", S' "use", S' "chain"] := by
+  decide +kernel
+
+theorem specP_treeFragment : TreeFragment specP := by
+  have hT : TreeLike specP.prog :=
+    treeLike_of_check (fun k => match k with | 0 => 0 | 1 => 1 | 2 => 0 | 3 => 2 | _ => 3) 3 (by decide +kernel)
+  have h0 : TreeHyps0 specP := treeHyps0_of_check (by decide +kernel)
+  obtain ⟨w1, w2, w3⟩ := c04Ready_of_check (S := specP) (by decide +kernel)
+  exact ⟨hT, h0.cid, h0.rootBased, h0.bare, h0.iface, h0.accepted, w1, w2, w3⟩
+
+/-- non-vacuity of `pipeline_entries`, `pipeline_leaf_exact`, `pipeline_depth_one` and
+`pipeline_tree_sound_complete` on that module: the run succeeds; `leaf` (key 0, one call, to the
+builtin `print`) meets `NoResolvable`; `top` (key 1) meets `LocalD1` and `EdgeHyp` although the
+module as a whole is three calls deep; the module is in the tree fragment; and the right-hand sides
+the theorems equate the document with are the expected spellings (`chain` three levels above
+`leaf`, through a class initialiser bound to the local `k`). -/
+example :
+    (∃ doc ds, run envP (S' "target") {} [S' "print"] modP = .ok (doc, ds) ∧ doc = docP) ∧
+    (∃ sym ir, firP[0]? = some (sym, ir) ∧ ir.calls ≠ [] ∧ NoResolvable {} [] firP ir) ∧
+    LocalD1 specP.prog 1 ∧
+    (∀ c ∈ (fnAt specP.prog 1).calls, ∀ g, specP.prog.resolve c.cid = some g → EdgeHyp specP c g) ∧
+    ¬ LocalD1 specP.prog 3 ∧ TreeFragment specP ∧
+    (Spec.derive specP 1 1).gets = [S' "a", S' "b", S' "a.attr", S' "a.shown"] ∧
+    (Spec.derive specP 1 1).sets = [S' "b.other"] ∧ (Spec.derive specP 1 1).dels = [S' "b.gone"] ∧
+    (Spec.derive specP 3 4).gets = [S' "z", S' "z.in_init", S' "z.attr", S' "z.shown"] ∧
+    (Spec.derive specP 3 4).sets = [S' "k", S' "k.f", S' "z.other"] := by
+  refine ⟨?_, ?_, localD1_of_check (by decide +kernel), edgeHyp_of_check (by decide +kernel), ?_,
+    specP_treeFragment, by decide +kernel, by decide +kernel, by decide +kernel, by decide +kernel,
+    by decide +kernel⟩
+  · exact ⟨docP, [], pipeline_test_module, rfl⟩
+  · have h : (match firP[0]? with
+        | some (_, ir) => !ir.calls.isEmpty && ir.calls.all (fun c => match resolveCall {} [] firP c with
+            | .target _ => false | _ => true)
+        | none => false) = true := by decide +kernel
+    cases hk : firP[0]? with
+    | none => simp [hk] at h
+    | some p =>
+      obtain ⟨sym, ir⟩ := p
+      simp only [hk, Bool.and_eq_true] at h
+      refine ⟨sym, ir, rfl, ?_, ?_⟩
+      · intro e; rw [e] at h; simp at h
+      · intro c hc g hr
+        have := List.all_eq_true.mp h.2 c hc
+        simp [hr] at this
+  · intro hL
+    have : localD1B specP.prog 3 = false := by decide +kernel
+    have h2 : localD1B specP.prog 3 = true := by
+      unfold localD1B
+      apply List.all_eq_true.mpr
+      intro c hc
+      cases hr : specP.prog.resolve c.cid with
+      | none => rfl
+      | some g => exact (leafB_iff _ g).mpr (hL c hc g hr)
+    rw [this] at h2
+    cases h2
+
+
+
+/-- key `k` of the FileIr is called `name` and no later key is (Boolean check for concrete modules). -/
+def keyB (fir : Pipeline.FileIr) (k : Key) (name : Str) : Bool :=
+  match fir[k]? with
+  | some p => p.1.name == name && (fir.drop (k + 1)).all (fun q => q.1.name != name)
+  | none => false
+
+theorem key_of_check {fir : Pipeline.FileIr} {k : Key} {name : Str} (h : keyB fir k name = true) :
+    ∃ sym ir, fir[k]? = some (sym, ir) ∧ sym.name = name ∧ LastOfName fir k sym.name := by
+  unfold keyB at h
+  cases hk : fir[k]? with
+  | none => simp [hk] at h
+  | some p =>
+    obtain ⟨sym, ir⟩ := p
+    simp only [hk, Bool.and_eq_true, beq_iff_eq, List.all_eq_true, bne_iff_ne, ne_eq] at h
+    refine ⟨sym, ir, rfl, h.1, ?_⟩
+    intro j sym' ir' hj hj'
+    rw [h.1]
+    apply h.2 (sym', ir')
+    have : (fir.drop (k + 1))[j - (k + 1)]? = some (sym', ir') := by
+      rw [List.getElem?_drop]
+      rw [Nat.add_sub_of_le hj]; exact hj'
+    exact List.mem_of_getElem? this
+
+/-- `pipeline_leaf_exact`, `pipeline_depth_one` and `pipeline_tree_sound_complete` APPLIED to the
+module `modP` (their hypotheses discharged by the checkers above): the entry the document holds
+for `leaf` is its own IR; the entry for `top` is the one-level unfolding; the entry for `chain`
+— three calls above `leaf`, one of them through the initialiser of `K` — is the closure. -/
+example :
+    (Dict.get? docP (S' "leaf")).isSome ∧
+    (∃ e, Dict.get? docP (S' "top") = some e ∧
+      ∀ n, (n ∈ e.gets ↔ n ∈ (Spec.derive specP 1 1).gets) ∧ (n ∈ e.sets ↔ n ∈ (Spec.derive specP 1 1).sets) ∧
+           (n ∈ e.dels ↔ n ∈ (Spec.derive specP 1 1).dels)) ∧
+    (∃ e, Dict.get? docP (S' "chain") = some e ∧
+      ∀ n, (n ∈ e.gets ↔ Spec.DerivableGet specP 4 n) ∧ (n ∈ e.sets ↔ Spec.DerivableSet specP 4 n) ∧
+           (n ∈ e.dels ↔ Spec.DerivableDel specP 4 n)) := by
+  refine ⟨?_, ?_, ?_⟩
+  · obtain ⟨fir, d0, hfile, hthm⟩ := pipeline_leaf_exact pipeline_test_module
+    have hfir : fir = firP := firP_eq hfile
+    subst hfir
+    obtain ⟨sym, ir, hk, hn, hlast⟩ := key_of_check (fir := firP) (k := 0) (name := S' "leaf") (by decide +kernel)
+    have hleaf : NoResolvable {} [] firP ir := by
+      have h : (match firP[0]? with
+          | some (_, ir) => ir.calls.all (fun c => match resolveCall {} [] firP c with
+              | .target _ => false | _ => true)
+          | none => false) = true := by decide +kernel
+      simp only [hk] at h
+      intro c hc g hr
+      have := List.all_eq_true.mp h c hc
+      simp [hr] at this
+    have := hthm 0 sym ir hk hlast hleaf
+    rw [hn] at this
+    rw [this]; rfl
+  · obtain ⟨fir, d0, hfile, hthm⟩ := pipeline_depth_one pipeline_test_module
+    have hfir : fir = firP := firP_eq hfile
+    subst hfir
+    obtain ⟨sym, ir, hk, hn, hlast⟩ := key_of_check (fir := firP) (k := 1) (name := S' "top") (by decide +kernel)
+    obtain ⟨e, he, _, hmem⟩ := hthm sigsP 1 sym ir hk hlast (localD1_of_check (by decide +kernel))
+      (edgeHyp_of_check (by decide +kernel))
+    rw [hn] at he
+    exact ⟨e, he, hmem⟩
+  · obtain ⟨fir, d0, hfile, hthm⟩ := pipeline_tree_sound_complete pipeline_test_module
+    have hfir : fir = firP := firP_eq hfile
+    subst hfir
+    obtain ⟨sym, ir, hk, hn, hlast⟩ := key_of_check (fir := firP) (k := 4) (name := S' "chain") (by decide +kernel)
+    obtain ⟨e, he, _, hmem⟩ := hthm sigsP specP_treeFragment 4 sym ir hk hlast
+    rw [hn] at he
+    exact ⟨e, he, hmem⟩
+
+
+/-- the encoding of the C03 "dedupe" witness as SOURCE:
+```
+def top(a, b):
+    one(a)
+    two(b)
+def one(x):
+    leaf(x)
+def two(x):
+    leaf(x)
+def leaf(l):
+    l.attr
+``` -/
+def modD : List Top :=
+  [.funcDef "top".toList ⟨[], ["a".toList, "b".toList], none, [], none⟩
+      [(.other "Expr".toList [(.call (.name "one".toList .load) [(.name "a".toList .load)] [] [])]), (.other "Expr".toList [(.call (.name "two".toList .load) [(.name "b".toList .load)] [] [])])]
+      [] false,
+   .funcDef "one".toList ⟨[], ["x".toList], none, [], none⟩
+      [(.other "Expr".toList [(.call (.name "leaf".toList .load) [(.name "x".toList .load)] [] [])])]
+      [] false,
+   .funcDef "two".toList ⟨[], ["x".toList], none, [], none⟩
+      [(.other "Expr".toList [(.call (.name "leaf".toList .load) [(.name "x".toList .load)] [] [])])]
+      [] false,
+   .funcDef "leaf".toList ⟨[], ["l".toList], none, [], none⟩
+      [(.other "Expr".toList [(.attr (.name "l".toList .load) "attr".toList .load)])]
+      [] false]
+
+def docD : ResultsDoc :=
+  [(S' "top", ⟨[S' "a", S' "a.attr", S' "b"], [], [], [S' "one()", S' "two()"]⟩),
+   (S' "one", ⟨[S' "x", S' "x.attr"], [], [], [S' "leaf()"]⟩),
+   (S' "two", ⟨[S' "x", S' "x.attr"], [], [], [S' "leaf()"]⟩),
+   (S' "leaf", ⟨[S' "l.attr"], [], [], []⟩)]
+
+def firD : Pipeline.FileIr :=
+  match FileA.analyseFile envP (S' "target") {} [] modD with
+  | .ok (fir, _) => fir
+  | _ => []
+
+theorem firD_eq {fir : Pipeline.FileIr} {d0 : List Diag}
+    (h : FileA.analyseFile envP (S' "target") {} [] modD = .ok (fir, d0)) : fir = firD := by
+  unfold firD; rw [h]
+
+attribute [irreducible] firD
+
+def specD : Spec.SProg := specOf {} [] firD [sigP ["a", "b"], sigP ["x"], sigP ["x"], sigP ["l"]]
+
+/-- **`pipeline_cex_dedupe`** (kernel evaluation, end to end from the source above): the document
+rattr prints for `top` lacks `b.attr`, which the closure spec derives at depth two (`two(b)` →
+`leaf(x)`): the tree-global `seen` set of `make_target_ir_call_tree` cuts the second `leaf(x)`.
+The module is outside `TreeFragment` only by its diamond; `pipeline_sound_all_graphs` still applies. -/
+theorem pipeline_cex_dedupe :
+    run envP (S' "target") {} [] modD = .ok (docD, []) ∧
+    (Dict.get? docD (S' "top")).map (·.gets) = some [S' "a", S' "a.attr", S' "b"] ∧
+    S' "b.attr" ∈ (Spec.derive specD 2 0).gets ∧ S' "a.attr" ∈ (Spec.derive specD 2 0).gets :=
+  ⟨eq_of_outcomeIs (by decide +kernel), by decide +kernel, by decide +kernel, by decide +kernel⟩
+
+/-- non-vacuity of `pipeline_sound_all_graphs`: the diamond module `modD` (outside the tree
+fragment) meets its hypotheses; applied, every name the document lists for `top` is derivable. -/
+example : ∃ e, Dict.get? docD (S' "top") = some e ∧ ∀ n ∈ e.gets, Spec.DerivableGet specD 0 n := by
+  obtain ⟨fir, d0, hfile, hthm⟩ := pipeline_sound_all_graphs pipeline_cex_dedupe.1
+  have hfir : fir = firD := firD_eq hfile
+  subst hfir
+  have h0 : TreeHyps0 specD := treeHyps0_of_check (by decide +kernel)
+  obtain ⟨w1, w2, w3⟩ := c04Ready_of_check (S := specD) (by decide +kernel)
+  obtain ⟨sym, ir, hk, hn, hlast⟩ := key_of_check (fir := firD) (k := 0) (name := S' "top") (by decide +kernel)
+  obtain ⟨e, he, hg, _⟩ := hthm _ h0.rootBased h0.bare h0.iface h0.accepted w1 w2 w3 0 sym ir hk hlast
+  rw [hn] at he
+  exact ⟨e, he, hg⟩
+
 
 end Rattr.C03
